@@ -74,7 +74,7 @@ Section MapRef.
   Qed.
   Lemma a_at_none l k : a_at l k = None -> nomatch l k.
   Proof.
-    induction l as [|[k' v'] l IH]; simpl; intros H k2 v2 I; [destruct I1|]. destruct (eqv k k') eqn:E; [discriminate|].
+    induction l as [|[k' v'] l IH]; simpl; intros H k2 v2 I; [destruct I|]. destruct (eqv k k') eqn:E; [discriminate|].
     destruct I as [I|I]; [inversion I; subst; auto | eapply IH; eauto].
   Qed.
 
@@ -120,7 +120,7 @@ Section MapRef.
 
   Lemma at_loop_some k b v : at_loop K eqv k b = Some v -> exists k', In (k', v) (bucket_items b) /\ eqv k k' = true.
   Proof.
-    induction b as [|e b IH]; simpl; [discriminate|]. rewrite bucket_items_cons. unfold Model.live.
+    induction b as [|e b IH]; cbn [at_loop del_loop set_loop fill_last_hole]; [discriminate|]. rewrite bucket_items_cons. unfold Model.live.
     destruct (ekey K e) as [k0|] eqn:Ek.
     - destruct (eqv k k0) eqn:E.
       + intros H; inversion H; subst. exists k0. simpl; auto.
@@ -129,7 +129,7 @@ Section MapRef.
   Qed.
   Lemma at_loop_none k b : at_loop K eqv k b = None -> nomatch (bucket_items b) k.
   Proof.
-    induction b as [|e b IH]; simpl; intros H k2 v2 I; [destruct I|]. rewrite bucket_items_cons in I. unfold Model.live in H.
+    induction b as [|e b IH]; cbn [at_loop del_loop set_loop fill_last_hole]; intros H k2 v2 I; [destruct I|]. rewrite bucket_items_cons in I. unfold Model.live in H.
     destruct (ekey K e) as [k0|] eqn:Ek.
     - destruct (eqv k k0) eqn:E; [discriminate|]. destruct I as [I|I]; [inversion I; subst; auto | eapply IH; eauto].
     - eapply IH; eauto.
@@ -138,7 +138,7 @@ Section MapRef.
   Lemma del_loop_some k b b' : del_loop K eqv k b = Some b' ->
     exists k' v, eqv k k' = true /\ Permutation (bucket_items b) ((k', v) :: bucket_items b').
   Proof.
-    revert b'. induction b as [|e b IH]; simpl; intros b' H; [discriminate|]. unfold Model.live in H.
+    revert b'. induction b as [|e b IH]; cbn [at_loop del_loop set_loop fill_last_hole]; intros b' H; [discriminate|]. unfold Model.live in H.
     rewrite bucket_items_cons. destruct (ekey K e) as [k0|] eqn:Ek.
     - destruct (eqv k k0) eqn:E.
       + inversion H; subst. rewrite bucket_items_cons. simpl. eauto.
@@ -150,7 +150,7 @@ Section MapRef.
   Qed.
   Lemma del_loop_none k b : del_loop K eqv k b = None -> nomatch (bucket_items b) k.
   Proof.
-    induction b as [|e b IH]; simpl; intros H k2 v2 I; [destruct I|]. rewrite bucket_items_cons in I. unfold Model.live in H.
+    induction b as [|e b IH]; cbn [at_loop del_loop set_loop fill_last_hole]; intros H k2 v2 I; [destruct I|]. rewrite bucket_items_cons in I. unfold Model.live in H.
     destruct (ekey K e) as [k0|] eqn:Ek.
     - destruct (eqv k k0) eqn:E; [discriminate|]. destruct (del_loop K eqv k b) eqn:D; [discriminate|].
       destruct I as [I|I]; [inversion I; subst; auto | eapply IH; eauto].
@@ -160,7 +160,7 @@ Section MapRef.
   Lemma set_loop_some k v b p b' : set_loop K eqv k v b = Some (p, b') ->
     exists k' r, eqv k k' = true /\ Permutation (bucket_items b) ((k', p) :: r) /\ Permutation (bucket_items b') ((k', v) :: r).
   Proof.
-    revert b'. induction b as [|e b IH]; simpl; intros b' H; [discriminate|]. unfold Model.live in H.
+    revert b'. induction b as [|e b IH]; cbn [at_loop del_loop set_loop fill_last_hole]; intros b' H; [discriminate|]. unfold Model.live in H.
     rewrite bucket_items_cons. destruct (ekey K e) as [k0|] eqn:Ek.
     - destruct (eqv k k0) eqn:E.
       + inversion H; subst. rewrite bucket_items_cons. simpl. rewrite Ek. exists k0, (bucket_items b). auto.
@@ -173,7 +173,7 @@ Section MapRef.
   Qed.
   Lemma set_loop_none k v b : set_loop K eqv k v b = None -> nomatch (bucket_items b) k.
   Proof.
-    induction b as [|e b IH]; simpl; intros H k2 v2 I; [destruct I|]. rewrite bucket_items_cons in I. unfold Model.live in H.
+    induction b as [|e b IH]; cbn [at_loop del_loop set_loop fill_last_hole]; intros H k2 v2 I; [destruct I|]. rewrite bucket_items_cons in I. unfold Model.live in H.
     destruct (ekey K e) as [k0|] eqn:Ek.
     - destruct (eqv k k0) eqn:E; [discriminate|]. destruct (set_loop K eqv k v b) as [[? ?]|] eqn:D; [discriminate|].
       destruct I as [I|I]; [inversion I; subst; auto | eapply IH; eauto].
@@ -183,7 +183,7 @@ Section MapRef.
   Lemma fill_last_hole_some k v b b' : fill_last_hole K (mkE K (Some k) v) b = Some b' ->
     Permutation (bucket_items b') ((k, v) :: bucket_items b).
   Proof.
-    revert b'. induction b as [|e b IH]; simpl; intros b' H; [discriminate|].
+    revert b'. induction b as [|e b IH]; cbn [at_loop del_loop set_loop fill_last_hole]; intros b' H; [discriminate|].
     destruct (fill_last_hole K (mkE K (Some k) v) b) as [r|] eqn:F.
     - inversion H; subst. rewrite !bucket_items_cons. destruct (ekey K e); rewrite (IH _ eq_refl); auto. apply perm_swap.
     - destruct (ekey K e) eqn:Ek; [discriminate|]. inversion H; subst. rewrite !bucket_items_cons. simpl. rewrite Ek. auto.
